@@ -626,8 +626,19 @@ class Evaluator:
         elif isinstance(t, ast.Subscript):
             base = self.eval(t.value, env)
             idx = self.eval(t.slice, env)
-            if isinstance(base, (list, dict)):
+            if isinstance(base, list):
+                if isinstance(idx, bool) or not isinstance(idx, (int, slice)):
+                    raise Undecided("list store with an abstract index")
+                if isinstance(idx, int) and not -len(base) <= idx < len(base):
+                    raise Raised("IndexError(list assignment index out of range)")
+                if self.strict_index and isinstance(idx, int):
+                    self._strict(t, t.slice, idx, getattr(base, "axis", None))
                 base[idx] = v
+            elif isinstance(base, dict):
+                try:
+                    base[idx] = v
+                except TypeError:
+                    raise Undecided("dict store with an unhashable key")
             else:
                 raise Undecided("store")
         elif isinstance(t, ast.Attribute):
